@@ -9,7 +9,7 @@
    the tag name "emph" as "em" (the `external` flag of hyperlinks is NOT erased any more:
    defect F10 is fixed by 8ee055e). *)
 From Pybtex Require Import Base.Prelude Base.PyChar Base.PyStr Model.RtTypes Model.RichText Model.Backends
-  Spec.Flat Spec.FlatOps Proofs.RichText Proofs.RichSlice Proofs.RichOps Proofs.RichEq Proofs.RichWf Proofs.RichObs Proofs.RichSplit Proofs.RichInj Proofs.RichNormal Proofs.RichHist Proofs.RichHist2 Proofs.RichRender Proofs.RichChain.
+  Spec.Flat Spec.FlatOps Proofs.RichText Proofs.RichSlice Proofs.RichOps Proofs.RichEq Proofs.RichWf Proofs.RichObs Proofs.RichSplit Proofs.RichInj Proofs.RichNormal Proofs.RichHist Proofs.RichHist2 Proofs.RichRender Proofs.RichChain Proofs.RichTextTwo.
 
 (* len(text) is the number of (character, markup) pairs of the rendering *)
 Theorem len_flat : forall t, rlen t = length (flat t).
@@ -183,6 +183,19 @@ Theorem split_ws_spec_partial : forall t s, chain_s t s ->
   split_c t SepNone None = Ok (map (rechain t) (split_ws s)).
 Proof. exact chain_split_ws_lem. Qed.
 Print Assumptions split_ws_spec_partial.
+
+(* a multi-part case: a String followed by a Tag around a String, where the seam is not adjacent to a
+   separator match (the regex piece before the seam and the one after it are non-empty: the F17s-free
+   condition).  The pieces of split() are exactly the regex pieces of the two strings with the empty
+   ones dropped, the two pieces around the seam glued into one text that keeps both markups. *)
+Theorem split_ws_spec_two_parts : forall m s1 s2,
+  last (re_split_ws s1 [] false) [] <> [] -> hd [] (re_split_ws s2 [] false) <> [] ->
+  split_c (RText [RStr s1; RTag m [RStr s2]]) SepNone None =
+  Ok (map (fun w => RText [RStr w]) (filter nonnil (removelast (re_split_ws s1 [] false)))
+      ++ [RText [RStr (last (re_split_ws s1 [] false) []); RTag (check_name m) [RStr (hd [] (re_split_ws s2 [] false))]]]
+      ++ map (fun w => RText [RTag (check_name m) [RStr w]]) (filter nonnil (tl (re_split_ws s2 [] false)))).
+Proof. exact two_part_split_ws_lem. Qed.
+Print Assumptions split_ws_spec_two_parts.
 
 (* split(delimiter_re) on the same texts: exactly re.split(r'([\s\-])', s), delimiters and empty
    strings included, each piece inside the same nest *)
@@ -469,3 +482,9 @@ Example history_split_example :
   /\ eval_c (EAddPeriod (ESplitNth (EText [EStr (s2l "a b"); ETag (s2l "em") [EStr (s2l "c d")]]) SepNone None 1) (s2l "."))
      = Ok (RText [RStr (s2l "b"); RTag (s2l "em") [RStr (s2l "c")]; RStr (s2l ".")]).
 Proof. vm_compute. split; reflexivity. Qed.
+(* Text('a b', Tag('em', 'c d')).split(): the seam b|c is not at a separator; 'b' and 'c' are glued *)
+Example two_parts_example :
+  last (re_split_ws (s2l "a b") [] false) [] <> [] /\ hd [] (re_split_ws (s2l "c d") [] false) <> []
+  /\ split_c (RText [RStr (s2l "a b"); RTag (s2l "em") [RStr (s2l "c d")]]) SepNone None
+     = Ok [RText [RStr (s2l "a")]; RText [RStr (s2l "b"); RTag (s2l "em") [RStr (s2l "c")]]; RText [RTag (s2l "em") [RStr (s2l "d")]]].
+Proof. split; [vm_compute; discriminate|split; [vm_compute; discriminate|vm_compute; reflexivity]]. Qed.
